@@ -318,6 +318,8 @@ func init() {
 	specs["C13"] = net("C13", 2400, 200000, "one case = one configuration of 0..5 plugins per protocol (synthetic plugins registered through plugins.RegisterPlugin that pass / modify / replace / stop / stop-with-nil / fail setup / return a nil handler, v4-only, v6-only or dual, mixed with built-in pass-through plugins and unknown names), started through the real config.Load (YAML file) and LoadPlugins with 1..3 listeners per protocol sharing the handler slice, then 2..14 DHCPv4/DHCPv6 requests handled concurrently; the invocation log of every datagram (request/response object identity, order, stop) and the response that reaches the wire are compared with the configuration; distinct = distinct (context-switch hash, reply-sequence hash); non-trivial = at least 2 datagrams delivered or a rejected start-up", "chain")
 	specs["C08"] = net("C08", 2400, 200000, "one case = one simulated server lifetime with the prefix plugin (pools of 2..64 blocks on both sides of bit 64) and 1..8 DHCPv6 clients (every DUID kind, equal-prefix DUIDs, direct or relayed 1..3 deep) sending 2..36 SOLICIT/REQUEST/RENEW/REBIND with 0..3 IA_PD x 0..3 IAPrefix hints (none, ::/0, length-only, held by self, held by another client, in-pool free, longer than the allocation size, out of pool), in bursts with duplicates, drops, stalls and up to 30 simulated minutes passing while handlers are in flight; distinct = distinct (context-switch hash, reply-sequence hash); non-trivial = at least 2 datagrams delivered", "pd6")
 	specs["C09"] = net("C09", 2400, 200000, "as C08 (scenario pd6); the reference model remembers every prefix an answer delegated per client identifier and the promised lifetime; every run ends with an audit in which new clients ask until NoPrefixAvail, which must succeed exactly N minus blocks-ever-delegated times", "pd6")
+	specs["C12"] = net("C12", 2400, 200000, "one case = one simulated server lifetime under a drawn DHCPv6 chain with 2..30 datagrams: message type 0..255 (biased to the defined ones), with/without client id and Rapid Commit, Server Identifier none/own/other, relay depth 0..4 with drawn per-layer link/peer addresses, Interface-ID, Remote-ID and extra options, wire-only shapes (outer Relay-Reply, Relay-Forward without relay-message option, truncation, bit flips), source global or link-local, listeners bound/unbound, receiving interface 2..4, duplicates in flight; every captured reply is attributed to its handler task; distinct = distinct (context-switch hash, reply-sequence hash); non-trivial = at least 2 datagrams delivered", "wire6")
+	specs["C14"] = net("C14", 2400, 200000, "one case = one simulated server lifetime with server_id configured for both protocols (every accepted argument spelling) and 2..30 messages: all DHCPv6 client message types x Server Identifier {none, own, other: every DUID kind, other kind over the same address, equal prefix longer/shorter, different time/hwtype} x relay depth 0..4; DHCPv4 DISCOVER/REQUEST x siaddr {absent, zero, own, other} x option 54 {absent, zero, own, other}; distinct = distinct (context-switch hash, reply-sequence hash); non-trivial = at least 2 datagrams delivered", "serverid")
 	specs["C03"] = net("C03", 2400, 200000, "as C02 but crash-heavy: 1..6 crashes placed at statement boundaries (half inside the range plugin / start-up), plus restarts of the range plugin on copies of the database taken at drawn instants; the database is read back by an independent connection at every crash and at the end", "lease4-crash", "lease4-crash", "lease4", "lease4-sqlfault")
 }
 
